@@ -64,6 +64,33 @@ CHECKS = {
         note='Lean kernel + standard axioms; libyaml contract (kinds, order, bytes, plain/non-plain style of the null spellings) is a hypothesis, sampled every run; '
              'Model/Yaml.lean hand-written.',
         ref='DESIGN.md §6 C14'),
+    'C01': dict(
+        technique='Lean 4 proof in non-commutative ring algebra (all port counts at once) that the E-term network satisfies the T/U equations and that apply inverts measure + end-to-end run against an independent physical simulator + saved-term equation check',
+        text='Theorems over an arbitrary ring (instantiated by n x n complex matrices for every n): the measurement of any device through any E-term network '
+             'satisfies the T equation M(Tx S+Tm)=Ts S+Ti and the U equation with the stated terms; any terms satisfying the equation correct the measurement back '
+             'to S (apply inverts measure); the result is invariant under the free scalar; a consistent system with injective coefficient map has only the true '
+             'solution. The compiled library is run end to end against tools/props/calsim.py (E-network with leakage and per-column switch terms): all 8 types, '
+             'square and rectangular shapes, m and a/b, all entry points, abbreviated matrices, swapped ports, scalar/vector handles; apply must return the DUT '
+             'and the terms in the saved file must satisfy the documented equation for an independent device.',
+        note='Lean kernel + standard axioms; the equation generator of the C (build_equation_terms) is not modelled: it is exercised end to end only; calsim.py/calfile.py '
+             'are the independent oracle; rounding tolerance 1e-8; leakage cells never measured are taken as 0 by the library (documented use of full matrices).',
+        ref='DESIGN.md §6 C01'),
+    'C17': dict(
+        technique='Lean 4 algebraic theorems (a/b column scaling, scalar freedom, apply depends only on the satisfied equation) + metamorphic pairs against the physical simulator',
+        text='ab_column_scaling: (B D)(A D)^-1 = B A^-1; applyT_scale_invariant; applyT_eq_of_both_satisfy: terms entered in any way that satisfy the same equation '
+             'correct identically. Eight metamorphic relations (through=line=mapped, full=abbreviated, order, a/b scaling, unrelated calibrations, frequencies together vs '
+             'split, E12 vs UE14, port renumbering) are run on every type and dimension with the same E-network and device on both sides.',
+        note='Lean kernel + standard axioms; metamorphic relations are checked on runs, the algebraic core is proved; tolerance 1e-8.',
+        ref='DESIGN.md §6 C17'),
+    'C20': dict(
+        technique='Lean 4 theorems (underdetermined systems never have a unique solution; determined consistent systems have exactly the true one) + add/solve histories classified by an independent Jacobian-rank identifiability test',
+        text='too_few_no_unique: with fewer equations than unknowns every solution has a different equally good neighbour, so refusing is the only sound answer; '
+             'solve_unique; failed_solve_frame. Random orderings of a generous standard list are added one at a time with a solve attempt after each: prefixes the '
+             'identifiability test calls determining must solve and correct an independent device, prefixes with fewer measured values than unknowns must fail with EDOM, '
+             'failed attempts must not disturb later ones and must not leak.',
+        note='Lean kernel + standard axioms; the identifiability test (tools/props/c20.py) is conservative for 16-term types (only full-S standards counted); '
+             'nothing is asserted for sets with enough equations that do not determine the terms.',
+        ref='DESIGN.md §6 C20'),
 }
 PENDING = {}
 ALL = ['C%02d' % i for i in range(1, 21)]
